@@ -6,6 +6,7 @@ import (
 	"sort"
 	"strconv"
 	"strings"
+	"sync"
 	"time"
 
 	"github.com/samaritan-proxy/samaritan/host"
@@ -22,13 +23,23 @@ import (
 //	d<i>     backend i stops listening (dials are refused); u<i> listens again
 //	r<i>     remove host i the way the controller does (a fresh equal object): number of held connections to i that get closed
 //	a<i>     add host i (a fresh object)
-//	k        close all held connections
+//	k        close all held connections at both ends and wait until the proxy has released them
+//	         (a client that closes alone leaves a half-closed relay, which still counts for least-connection)
 //	-> results of the c and r actions, ','-separated
 type greetBackend struct {
 	idx  int
 	addr string
 	ln   net.Listener
+	mu   sync.Mutex
 	held []net.Conn
+}
+
+func (g *greetBackend) takeHeld() []net.Conn {
+	g.mu.Lock()
+	defer g.mu.Unlock()
+	h := g.held
+	g.held = nil
+	return h
 }
 
 func (g *greetBackend) listen() error {
@@ -43,8 +54,10 @@ func (g *greetBackend) listen() error {
 			if err != nil {
 				return
 			}
-			c.Write([]byte{byte('0' + g.idx)})
+			g.mu.Lock()
 			g.held = append(g.held, c)
+			g.mu.Unlock()
+			c.Write([]byte{byte('0' + g.idx)})
 		}
 	}()
 	return nil
@@ -82,12 +95,13 @@ func execC06TCP(f []string) string {
 		}
 		hosts = append(hosts, host.New(a))
 	}
+	objs := append([]*host.Host{}, hosts...) // every host object handed to the processor
 	defer func() {
 		for _, b := range bes {
 			if b.ln != nil {
 				b.ln.Close()
 			}
-			for _, c := range b.held {
+			for _, c := range b.takeHeld() {
 				c.Close()
 			}
 		}
@@ -157,7 +171,9 @@ func execC06TCP(f []string) string {
 					}
 				}
 			case 'a':
-				p.OnSvcHostAdd([]*host.Host{host.New(addrs[i])})
+				h := host.New(addrs[i])
+				objs = append(objs, h)
+				p.OnSvcHostAdd([]*host.Host{h})
 			case 'r':
 				p.OnSvcHostRemove([]*host.Host{host.New(addrs[i])})
 				closed := 0
@@ -186,7 +202,23 @@ func execC06TCP(f []string) string {
 				h.c.Close()
 			}
 			held = nil
-			time.Sleep(60 * time.Millisecond)
+			for _, b := range bes {
+				for _, c := range b.takeHeld() {
+					c.Close()
+				}
+			}
+			for t := 0; t < 2000; t++ {
+				busy := false
+				for _, h := range objs {
+					if h.ConnCount() != 0 {
+						busy = true
+					}
+				}
+				if !busy {
+					break
+				}
+				time.Sleep(time.Millisecond)
+			}
 		default:
 			return "bad-op"
 		}
